@@ -127,6 +127,9 @@ def run(ck):
     tab, src = L.dump_tables(ck, exe)
     ck.write_gen("TfelVerif/C13/GenTable.lean", src)
     ck.log("tables dumped: %s" % {k: len(v) for k, v in tab.items()})
+    tdef = L.table_defects(tab)
+    for key, what, rep in tdef[:4]:
+        ck.violation(key, what, rep, True)
     driver = ck.lean_exe("c13driver", "TfelVerif/C13/Driver.lean")
     ck.log("driver built")
     res = ck.lean(PROPS, PROPS)
@@ -177,6 +180,9 @@ def run(ck):
     for u in tab["unary"]:
         for xa in (0.5, 1.5, -0.25):
             vreq({"x": xa}, "%s(x)" % u[0])
+    for xa in (0.0, -0.0, 1e-300, -1e-300):
+        vreq({"x": xa}, "H(x)")
+        vreq({"x": xa, "y": 1.0}, "max(x,y) - min(x,y) + H(x-y)")
     for b in tab["binary"]:
         for xa, xb in ((1.5, 2.5), (2.5, 1.5), (-1.0, -1.0)):
             vreq({"x": xa, "y": xb}, "%s(x,y)" % b[0])
@@ -405,6 +411,6 @@ def run(ck):
         "answers": hist, "error_kinds": errk, "mutation_kinds": mstats,
         "export_clause": {"pairs": len(export_env), **xstat},
         "generator": {"valid": g.stats, "value": gv.stats},
-        "tables": {k: len(v) for k, v in tab.items()},
+        "tables": {k: len(v) for k, v in tab.items()}, "table_entries_not_denoting_the_documented_object": len(tdef),
         "samples": samples,
     })
